@@ -84,7 +84,7 @@ def coerce(text, have, want):
 
 
 GTYPE = {'str': 'name', 'nat': 'nat', 'Z': 'Z', 'bool': 'bool', 'ver': 'ver',
-         'tbl': 'tbl', 'entry': '(name * nat)', 'natset': '(list nat)', 'ustate': 'ustate'}
+         'tbl': 'tbl', 'entry': '(name * nat)', 'natset': '(list nat)', 'ustate': 'ustate', 'msg': 'msg'}
 
 
 def gtype(t):
@@ -153,6 +153,7 @@ class Tr:
         self.STATE = list(STATE)
         self.MEM = 'mem'
         self.FNAME = {}          # python callee -> Gallina name when they differ
+        self.FIELDS = {}         # (receiver type, attribute) -> (projection, type)
 
     # ---- names ---------------------------------------------------------------
     def key(self, e):
@@ -177,6 +178,12 @@ class Tr:
             if env[k] == 'none':
                 return 'None', 'none'
             return mangle(k), env[k]
+        if isinstance(e, ast.Attribute):
+            rt, rty = self.expr(e.value, env)
+            if (rty, e.attr) in self.FIELDS:
+                pr, ty = self.FIELDS[(rty, e.attr)]
+                return '(%s %s)' % (pr, rt), ty
+            raise Unsupported('attribute %s of %r' % (e.attr, rty))
         if isinstance(e, ast.Constant):
             v = e.value
             if v is None:
@@ -203,6 +210,17 @@ class Tr:
             if lt == rt == 'str' or (isinstance(lt, tuple) and lt[0] == 'list' and lt == rt):
                 return '(%s ++ %s)' % (l, r), lt
             raise Unsupported('+ on %r and %r' % (lt, rt))
+        if isinstance(e, ast.BinOp) and isinstance(e.op, ast.Sub):
+            # int - int, with python's bool -> int coercion (True - False == 1)
+            parts = []
+            for x in (e.left, e.right):
+                t, ty = self.expr(x, env)
+                if ty == 'bool':
+                    t = '(b2z %s)' % t
+                elif ty != 'Z':
+                    raise Unsupported('- on %r' % (ty,))
+                parts.append(t)
+            return '(%s - %s)%%Z' % tuple(parts), 'Z'
         if isinstance(e, ast.BoolOp):
             op = ' && ' if isinstance(e.op, ast.And) else ' || '
             parts = [self.expr(v, env) for v in e.values]
@@ -233,6 +251,10 @@ class Tr:
     def compare(self, e, env):
         op = e.ops[0]
         (l, lt), (r, rt) = self.expr(e.left, env), self.expr(e.comparators[0], env)
+        if lt == 'Z' and rt == 'nat' and isinstance(e.comparators[0], ast.Constant):
+            r, rt = '(%s)%%Z' % r, 'Z'
+        if rt == 'Z' and lt == 'nat' and isinstance(e.left, ast.Constant):
+            l, lt = '(%s)%%Z' % l, 'Z'
         neg = isinstance(op, (ast.NotEq, ast.NotIn))
         if isinstance(op, (ast.Eq, ast.NotEq)):
             if lt == rt == 'str':
@@ -276,6 +298,13 @@ class Tr:
             if ty == 'Z':
                 return '(dec_Z %s)' % t, 'str'
             raise Unsupported('str() of %r' % (ty,))
+        if isinstance(f, ast.Name) and f.id == 'int' and len(e.args) == 1 and 'int' not in self.RAISING:
+            t, ty = self.expr(e.args[0], env)
+            if ty == 'bool':
+                return '(b2z %s)' % t, 'Z'
+            if ty == 'Z':
+                return t, 'Z'
+            raise Unsupported('int() of %r' % (ty,))
         if isinstance(f, ast.Name) and f.id == 'len' and len(e.args) == 1:
             t, ty = self.expr(e.args[0], env)
             if ty in ('str', 'tbl', 'natset') or (isinstance(ty, tuple) and ty[0] == 'list'):
